@@ -21,6 +21,12 @@ impl<const p: I> FF<p> {
         Self(a.rem_euclid(p))
     }
 
+    // sums and products of representatives (< p <= i32::MAX) need not fit in i32.
+    fn new_wide(a: i64) -> Self { 
+        assert!(p > 0);
+        Self(a.rem_euclid(p as i64) as I)
+    }
+
     pub fn rep(&self) -> &I { 
         &self.0
     }
@@ -87,7 +93,7 @@ macro_rules! impl_binop {
         impl<'a, 'b, const p: I> $trait<&'b FF<p>> for &'a FF<p> {
             type Output = FF<p>;
             fn $method(self, rhs: &'b FF<p>) -> Self::Output {
-                FF::new(self.0.$method(&rhs.0))
+                FF::new_wide((self.0 as i64).$method(&(rhs.0 as i64)))
             }
         }
     }
